@@ -123,7 +123,7 @@ pub fn run_scenario_env(root: &Path, scn: &Value, fail_at: Option<u64>, pack_fai
     ];
     let flavour = scn["fail_flavour"].as_u64().unwrap_or(0) as usize;
     cmd.env("VSTUB_FAIL_CODE", CODES[flavour % CODES.len()].to_string()).env("VSTUB_FAIL_MSG", MSGS[(flavour / CODES.len()) % MSGS.len()]);
-    let out = cmd.output().expect("spawn vworker");
+    let out = cmd.output().expect("harness: spawn vworker");
     let log_entries: Vec<Value> = std::fs::read_to_string(&log).unwrap_or_default().lines().filter_map(|l| serde_json::from_str(l).ok()).collect();
     let tmp_left: Vec<String> = std::fs::read_dir(root.join("tmp")).map(|rd| rd.flatten().map(|e| e.file_name().to_string_lossy().to_string()).collect()).unwrap_or_default();
     TrOutcome {
